@@ -63,6 +63,37 @@ func runC11(r *Run) {
 		} else {
 			r.Bad("R8", "anchor/Redeem", "", "not found")
 		}
+		r.Rule("R9", "PURE.results-of-coin-arithmetic-are-used: sdk.Coins, Coin, Int and Dec are value types whose Add/Sub/Mul/Quo/… return the result and leave the receiver untouched; anywhere in Haqq code (upgrade handlers included: v1.7.4 re-spreads every liquid denomination's and vesting account's lock-up schedule) the result of such a call is used — a discarded result is an update that never happened (a rounding remainder not put back: the schedule sums to one unit less than the supply)")
+		{
+			nA := 0
+			for _, fn := range r.P.Funcs {
+				if !isHaqqPath(fnPkgPath(fn)) || isTestSupport(r.P, fn) || fn.Synthetic != "" || isGeneratedFile(r.P.FileOf(fnPos(outermost(fn)))) {
+					continue
+				}
+				per := map[string]int{}
+				eachInstr(fn, func(in ssa.Instruction) {
+					c, ok := in.(*ssa.Call)
+					if !ok {
+						return
+					}
+					ci := callInfo(c)
+					if !(ci.Recv == "Coins" || ci.Recv == "Int" || ci.Recv == "LegacyDec" || ci.Recv == "Dec" || ci.Recv == "Coin" || ci.Recv == "DecCoins") || !strings.Contains(ci.PkgPath, "cosmos") {
+						return
+					}
+					switch ci.Name {
+					case "Add", "Sub", "Mul", "Quo", "SafeSub", "AddAmount", "SubAmount", "MulInt", "QuoInt", "Neg", "Min", "Max":
+					default:
+						return
+					}
+					nA++
+					if c.Referrers() == nil || len(*c.Referrers()) == 0 {
+						per[ci.Name]++
+						r.Bad("R9", fmt.Sprintf("%s#discarded-%s-%d", fnID(fn), ci.Name, per[ci.Name]), r.P.Pos(instrPos(in)), "the result of "+ci.String()+" is discarded: the receiver is a value and is not modified, so the intended update is lost")
+					}
+				})
+			}
+			r.Floor("R9", "coin / integer arithmetic calls in Haqq code", nA, 100)
+		}
 		n := checkErrorsFailTheMessage(r, "R7", fns, "the liquid tokens are already burnt / the coins already moved at that point, so the redeemed amount leaves the module without its lock-up schedule (or a liquidation mints without escrow)")
 		r.Floor("R7", "error-returning keeper calls in Liquidate/Redeem", n, 12)
 	}()
